@@ -40,24 +40,26 @@ var c09PanicExceptions = map[string]string{
 	"ledger.(*SimpleLedger).Commit:panic":                   "SimpleLedger.Commit is reachable only through the ILedger interface from FinalityLedger call sites that dispatch to FinalityLedger.Commit; immutable ledgers are never committed (C19 Q-1 / C17 E-5 check that no query path commits)",
 	"stake.(*Reward).UnmarshalJSON:must:MustFromDecimal":    "UnmarshalJSON of Reward is reached only from tmjson round-trips of values the node itself marshalled (query responses), never from request bytes",
 	"types.DefaultGovParams:must:MustFromDecimal":           "constant argument",
+	"node.(*RigoApp).BeginBlock:panic":                      "deliberate fail-stop: a block whose height is not the persisted height + 1, or a controller error while opening the block, halts the node instead of continuing on divergent state (C08 K-2 relies on it); no request bytes reach these tests",
+	"node.(*RigoApp).EndBlock:panic":                        "deliberate fail-stop on a controller error while closing the block (ledger I/O, version mismatch); the runtime panics below the handlers are what P-3..P-5 decide",
 }
 
 var c09IndexExceptions = map[string]string{}
 
 func checkC09(w *World, r *Report) {
-	r.Explanation = "Structural clause of C09: over every module function reachable (repaired VTA call graph) from CheckTx, DeliverTx and Query, (P-1) no explicit panic, always-panicking callee or Must* helper is reachable except a listed construct with its invariant; (P-2) every payload type assertion without comma-ok sits where the set of possible transaction types (dataflow over the tx-type tests, interprocedural) maps only to the payload type that Trx.fromProto allocates; (P-3) every slice/index expression on a slice whose bounds are not compile-time safe has a dominating length guard or clamp idiom; (P-4) results of module functions that return nil together with an error / may return nil are not dereferenced where the error is known non-nil or without a nil test; (P-5) every integer division by a non-constant has a dominating non-zero guard or a listed invariant; (P-6) every pointer-typed field of Trx / a payload type that the input paths dereference without a nil test is set non-nil on every success path of every function on the input paths that allocates such an object (directly or through a decoder call that establishes it, interprocedurally)."
-	r.NotCovered = "panics inside dependencies on hostile input (protobuf, rlp, iavl, go-ethereum, tendermint rpc core used by vm_call); resource exhaustion; nil dereferences of struct fields other than those of the decoded request objects (P-6) that are nil by construction rather than by a returned nil; guards whose removal cannot cause a panic (address/hash length checks: every consumer clamps) are deliberately not obligations."
+	r.Explanation = "Structural clause of C09: over every module function reachable (repaired VTA call graph) from CheckTx, DeliverTx and Query — and from BeginBlock and EndBlock, which later process what accepted transactions stored —, (P-1) no explicit panic, always-panicking callee or Must* helper is reachable except a listed construct with its invariant; (P-2) every payload type assertion without comma-ok sits where the set of possible transaction types (dataflow over the tx-type tests, interprocedural) maps only to the payload type that Trx.fromProto allocates; (P-3) every slice/index expression on a slice whose bounds are not compile-time safe has a dominating length guard or clamp idiom; (P-4) results of module functions that return nil together with an error / may return nil are not dereferenced where the error is known non-nil or without a nil test; (P-5) every integer division by a non-constant has a dominating non-zero guard or a listed invariant; (P-6) every pointer-typed field of Trx / a payload type that the input paths dereference without a nil test is set non-nil on every success path of every function on the input paths that allocates such an object (directly or through a decoder call that establishes it, interprocedurally)."
+	r.NotCovered = "whether an error a controller returns from BeginBlock/EndBlock (which RigoApp turns into a deliberate fail-stop panic) can be provoked by stored transaction data; panics inside dependencies on hostile input (protobuf, rlp, iavl, go-ethereum, tendermint rpc core used by vm_call); resource exhaustion; nil dereferences of struct fields other than those of the decoded request objects (P-6) that are nil by construction rather than by a returned nil; guards whose removal cannot cause a panic (address/hash length checks: every consumer clamps) are deliberately not obligations."
 
-	roots := w.entrySet("CheckTx", "DeliverTx", "Query")
-	if len(roots) != 3 {
-		r.Undecided("P-0", "entries", "RigoApp.CheckTx/DeliverTx/Query do not all resolve")
+	roots := w.entrySet("CheckTx", "DeliverTx", "Query", "BeginBlock", "EndBlock")
+	if len(roots) != 5 {
+		r.Undecided("P-0", "entries", "RigoApp.CheckTx/DeliverTx/Query/BeginBlock/EndBlock do not all resolve")
 		return
 	}
 	reach := w.ReachFrom(roots, nil)
 	scope := reach.ModuleFuncs()
 	r.Extra["scope_functions"] = len(scope)
 	if len(scope) < 150 {
-		r.Undecided("P-0", "scope", fmt.Sprintf("only %d module functions reachable from CheckTx/DeliverTx/Query (floor 150): call graph incomplete", len(scope)))
+		r.Undecided("P-0", "scope", fmt.Sprintf("only %d module functions reachable from the request and block handlers (floor 150): call graph incomplete", len(scope)))
 	}
 
 	p1(w, r, reach, scope)
@@ -94,6 +96,43 @@ func (w *World) alwaysPanics(fn *ssa.Function) bool {
 	return false
 }
 
+var reRewardHeightCmp = regexp.MustCompile(`^\(recv\.height (<|<=|==|!=|>=|>) p\d\)$|^\(p\d (<|<=|==|!=|>=|>) recv\.height\)$`)
+
+// rewardHeightPanics: fn is a method of stake.Reward and each of its panics is
+// reached only through comparisons of the record's height with a parameter (the
+// height-order invariant of Issue / Withdraw / Slash, wherever the test lives).
+func (w *World) rewardHeightPanics(fn *ssa.Function) bool {
+	if fn.Signature.Recv() == nil {
+		return false
+	}
+	n, _ := deref(fn.Signature.Recv().Type()).(*types.Named)
+	if n == nil || n.Obj().Name() != "Reward" || n.Obj().Pkg() == nil || !strings.HasSuffix(n.Obj().Pkg().Path(), "/ctrlers/stake") {
+		return false
+	}
+	found := false
+	for _, b := range fn.Blocks {
+		if _, ok := lastInstr(b).(*ssa.Panic); !ok {
+			continue
+		}
+		found = true
+		nCond := 0
+		for _, d := range fn.Blocks {
+			ifi, ok := lastInstr(d).(*ssa.If)
+			if !ok || condEdge(ifi, b) == 0 {
+				continue
+			}
+			nCond++
+			if !reRewardHeightCmp.MatchString(w.Canon(ifi.Cond)) {
+				return false
+			}
+		}
+		if nCond == 0 {
+			return false
+		}
+	}
+	return found
+}
+
 func p1(w *World, r *Report, reach *Reach, scope []*ssa.Function) {
 	for _, fn := range scope {
 		name := w.FName(fn)
@@ -109,8 +148,11 @@ func p1(w *World, r *Report, reach *Reach, scope []*ssa.Function) {
 			key := name + ":panic"
 			if why, ok := c09PanicExceptions[key]; ok {
 				r.OK("P-1", key, "explicit panic excepted: "+why, sites...)
+			} else if w.rewardHeightPanics(fn) {
+				// keyed by what is tested, not by where: the reward record's height against the block height
+				r.OK("P-1", key, "explicit panic excepted: "+c09PanicExceptions["stake.(*Reward).Withdraw:panic"], sites...)
 			} else {
-				r.Violate("P-1", key, "explicit panic reachable from CheckTx/DeliverTx/Query", map[string]interface{}{"path": reach.Path(fn)}, sites...)
+				r.Violate("P-1", key, "explicit panic reachable from the request and block handlers", map[string]interface{}{"path": reach.Path(fn)}, sites...)
 			}
 		}
 		for _, c := range CallsIn(fn) {
@@ -490,6 +532,17 @@ func p2(w *World, r *Report, reach *Reach, scope []*ssa.Function) {
 
 // lenOf: is v == len(s) for slice value s (by identity or canonical path)?
 func (w *World) isLenOf(v ssa.Value, s ssa.Value) bool {
+	// s == make([]T, n): its length is n, however n is written
+	if ms, isMake := stripConv(s).(*ssa.MakeSlice); isMake {
+		if stripConv(ms.Len) == stripConv(v) {
+			return true
+		}
+		if cv, cl := w.Canon(v), w.Canon(ms.Len); cv == cl && !strings.Contains(cv, "…") && !strings.HasPrefix(cv, "?") {
+			if _, isConst := ms.Len.(*ssa.Const); !isConst {
+				return true
+			}
+		}
+	}
 	c, ok := v.(*ssa.Call)
 	if !ok {
 		return false
@@ -571,7 +624,18 @@ func (w *World) provenLE(v ssa.Value, s ssa.Value, at *ssa.BasicBlock, strict bo
 			return true
 		}
 	}
+	// a negative constant is below every length; 0 is at most every length
+	if vConst && (kv < 0 || (kv == 0 && !strict)) {
+		return true
+	}
 	if ph, ok := v.(*ssa.Phi); ok {
+		// every leaf of the phi web must be bounded; a phi met again while it is
+		// being proven contributes no new leaf
+		if provenPhiBusy[ph] {
+			return true
+		}
+		provenPhiBusy[ph] = true
+		defer delete(provenPhiBusy, ph)
 		for i, e := range ph.Edges {
 			if e == v {
 				continue
@@ -585,6 +649,8 @@ func (w *World) provenLE(v ssa.Value, s ssa.Value, at *ssa.BasicBlock, strict bo
 	}
 	return false
 }
+
+var provenPhiBusy = map[*ssa.Phi]bool{}
 
 // provenLEEdge: like provenLE but for the value flowing along edge pred->blk.
 func (w *World) provenLEEdge(v ssa.Value, s ssa.Value, pred, blk *ssa.BasicBlock, strict bool, depth int) bool {
@@ -696,7 +762,7 @@ func p3(w *World, r *Report, reach *Reach, scope []*ssa.Function) {
 			return false
 		}
 		lo, hi := false, false
-		for _, g := range w.Guards(fn) {
+		for _, g := range w.GuardsDeep(fn, 2) {
 			if strings.Contains(g.Cond, ".Choice < 0)") {
 				lo = true
 			}
@@ -709,17 +775,36 @@ func p3(w *World, r *Report, reach *Reach, scope []*ssa.Function) {
 	exceptions := map[string]condEx{
 		"proposal.(*GovProposal).doVote:index:recv.Options[p1]":            {"the choice is validated against len(Options) by GovCtrler.ValidateTrx before execVoting (guards `Choice < 0` and `Choice >= len(prop.Options)` present), and DoPunish re-casts a stored, already validated choice", choiceGuard},
 		"proposal.(*GovProposal).cancelVote:index:recv.Options[p0.Choice]": {"a stored choice was validated when the vote was cast (same guards) and the option list never shrinks", choiceGuard},
-		"proposal.(*GovProposal).updateMajorOption:index:recv.Options[0]": {"proposals are created only after GovCtrler.ValidateTrx rejected an empty option list", func() bool {
+		"proposal.(*GovProposal).updateMajorOption:index:recv.Options[0]": {"proposals are created only after GovCtrler.ValidateTrx rejected an empty option list, the stored option list is only ever built by NewVoteOptions, and NewVoteOptions keeps one stored option per submitted option", func() bool {
 			fn := w.Method("ctrlers/gov", "GovCtrler", "ValidateTrx")
 			if fn == nil {
 				return false
 			}
-			for _, g := range w.Guards(fn) {
+			guard := false
+			for _, g := range w.GuardsDeep(fn, 2) {
 				if strings.Contains(g.Cond, "len(") && strings.Contains(g.Cond, ".Options) == 0") {
-					return true
+					guard = true
 				}
 			}
-			return false
+			if !guard {
+				return false
+			}
+			// every store to the stored option list takes the result of NewVoteOptions
+			nStores := 0
+			for _, f := range w.ModuleFuncs() {
+				for _, fs := range w.fieldStores(f) {
+					if fs.Field.Name() != "Options" || fs.Owner == nil || !strings.HasSuffix(fs.Owner.Obj().Pkg().Path(), "/gov/proposal") {
+						continue
+					}
+					nStores++
+					c, isCall := stripConv(fs.Val).(*ssa.Call)
+					if !isCall || c.Common().StaticCallee() == nil || c.Common().StaticCallee().Name() != "NewVoteOptions" {
+						return false
+					}
+				}
+			}
+			nv := w.Func("ctrlers/gov/proposal", "NewVoteOptions")
+			return nStores >= 1 && nv != nil && w.keepsOnePerElement(nv)
 		}},
 	}
 	for _, fn := range scope {
@@ -768,6 +853,123 @@ func p3(w *World, r *Report, reach *Reach, scope []*ssa.Function) {
 			}
 		}
 	}
+}
+
+// keepsOnePerElement: fn builds its slice result from its slice parameter with
+// exactly one append per element: every iteration of the loop over the parameter
+// passes an append on the way back to the loop header, and the returned value is
+// that accumulator.
+func (w *World) keepsOnePerElement(fn *ssa.Function) bool {
+	if fn == nil || fn.Blocks == nil || len(fn.Params) != 1 {
+		return false
+	}
+	p := fn.Params[0]
+	if p.Referrers() == nil {
+		return false
+	}
+	isAppend := func(in ssa.Instruction) bool {
+		// result[i] = … into a result made with len(p)
+		if st, isSt := in.(*ssa.Store); isSt {
+			if ia, isIA := st.Addr.(*ssa.IndexAddr); isIA {
+				if ms, isMS := stripConv(ia.X).(*ssa.MakeSlice); isMS && w.isLenOf(ms.Len, p) {
+					return true
+				}
+			}
+			return false
+		}
+		c, ok := in.(*ssa.Call)
+		if !ok {
+			return false
+		}
+		b, ok := c.Common().Value.(*ssa.Builtin)
+		return ok && b.Name() == "append"
+	}
+	nLoops := 0
+	var appends []ssa.Value
+	for _, ref := range *p.Referrers() {
+		ia, ok := ref.(*ssa.IndexAddr)
+		if !ok || ia.X != p {
+			if _, isLen := ref.(*ssa.Call); isLen {
+				continue // len(p)
+			}
+			if _, isDbg := ref.(*ssa.DebugRef); isDbg {
+				continue
+			}
+			return false
+		}
+		hdr := loopHeaderOf(ia.Block())
+		if hdr == nil {
+			return false
+		}
+		nLoops++
+		seen := map[*ssa.BasicBlock]bool{}
+		escaped := false
+		var walk func(b *ssa.BasicBlock, i int)
+		walk = func(b *ssa.BasicBlock, i int) {
+			for ; i < len(b.Instrs); i++ {
+				if isAppend(b.Instrs[i]) {
+					if c, isC := b.Instrs[i].(*ssa.Call); isC {
+						appends = append(appends, c)
+					} else if st, isSt := b.Instrs[i].(*ssa.Store); isSt {
+						appends = append(appends, stripConv(st.Addr.(*ssa.IndexAddr).X))
+					}
+					return
+				}
+			}
+			for _, s := range b.Succs {
+				if s == hdr {
+					escaped = true
+					return
+				}
+				if !seen[s] {
+					seen[s] = true
+					walk(s, 0)
+				}
+			}
+		}
+		pos := posOf(ia)
+		walk(pos.b, pos.i+1)
+		if escaped {
+			return false
+		}
+	}
+	if nLoops != 1 || len(appends) == 0 {
+		return false
+	}
+	// the returned value is the accumulator the appends feed
+	for _, b := range fn.Blocks {
+		ret, ok := lastInstr(b).(*ssa.Return)
+		if !ok || len(ret.Results) != 1 {
+			continue
+		}
+		if c, isC := ret.Results[0].(*ssa.Const); isC && c.IsNil() {
+			// an early `return nil` is the empty list for empty input only
+			if w.condCanonHolds(b, "(len(p0) == 0)", 1) {
+				continue
+			}
+			return false
+		}
+		reach := map[ssa.Value]bool{}
+		var visit func(v ssa.Value)
+		visit = func(v ssa.Value) {
+			if reach[v] {
+				return
+			}
+			reach[v] = true
+			if ph, ok := v.(*ssa.Phi); ok {
+				for _, e := range ph.Edges {
+					visit(e)
+				}
+			}
+		}
+		visit(ret.Results[0])
+		for _, a := range appends {
+			if !reach[a] && !reach[stripConv(a)] {
+				return false
+			}
+		}
+	}
+	return true
 }
 
 type condEx struct {
@@ -1082,6 +1284,14 @@ func p4(w *World, r *Report, reach *Reach, scope []*ssa.Function) {
 						continue
 					}
 				}
+				// value and error merged pairwise with those of a sibling call
+				// (`if exec { v, err = a() } else { v, err = b() }; if err != nil { return }`)
+				if errV != nil && (nilWithErr || w.nilOnlyWithErr(callees)) {
+					if q := parallelErrPhi(val, errV); q != nil && w.nilTestAt(q, blk) == -1 {
+						r.OK("P-4", key, "dereference on the err == nil branch (value and error are merged pairwise with a sibling call's) of a callee that returns nil only together with an error", site(w, d))
+						continue
+					}
+				}
 				if why, ok := c09NilExceptions[exKey]; ok {
 					r.OK("P-4", key, "excepted: "+why, site(w, d))
 					continue
@@ -1090,6 +1300,42 @@ func p4(w *World, r *Report, reach *Reach, scope []*ssa.Function) {
 			}
 		}
 	}
+}
+
+// parallelErrPhi: val flows into a phi whose block also merges errV along the
+// same edges; returns that error phi.
+func parallelErrPhi(val, errV ssa.Value) ssa.Value {
+	if val.Referrers() == nil {
+		return nil
+	}
+	for _, ref := range *val.Referrers() {
+		p, ok := ref.(*ssa.Phi)
+		if !ok {
+			continue
+		}
+		for _, in := range p.Block().Instrs {
+			q, ok := in.(*ssa.Phi)
+			if !ok {
+				break
+			}
+			if q == p {
+				continue
+			}
+			match, n := true, 0
+			for i, e := range p.Edges {
+				if e == val {
+					n++
+					if q.Edges[i] != errV {
+						match = false
+					}
+				}
+			}
+			if match && n > 0 {
+				return q
+			}
+		}
+	}
+	return nil
 }
 
 func fnNames(w *World, fs []*ssa.Function) []string {
